@@ -43,14 +43,19 @@ def h(*a):
 PLANES = {"latin": (0xA1, 0x24F), "greek-cyrillic": (0x370, 0x4FF), "combining": (0x300, 0x36F), "rtl": (0x5D0, 0x6FF),
           "cjk": (0x4E00, 0x9FFF), "symbols": (0x2000, 0x2BFF), "private-bmp": (0xE000, 0xF8FF), "astral-emoji": (0x1F300, 0x1FAFF),
           "astral-math": (0x1D400, 0x1D7FF), "astral-cjk": (0x20000, 0x2A6DF), "high-plane": (0xE0100, 0xE01EF)}
+# characters that str.splitlines() / some decoders treat as line boundaries although they are ordinary characters of a value
+SEPARATORS = [0x0B, 0x0C, 0x1C, 0x1D, 0x1E, 0x85, 0x2028, 0x2029, 0xA0, 0xFEFF, 0x200B, 0x1680]
 
 
 def rand_unicode(r, res):
     n = r.randint(1, 12)
     out = []
     for _ in range(n):
-        k = r.choice(list(PLANES) + ["ascii", "ascii"])
-        if k == "ascii":
+        k = r.choice(list(PLANES) + ["ascii", "ascii", "separator-like"])
+        if k == "separator-like":
+            c = chr(r.choice(SEPARATORS))
+            res.seen("codepoint-classes", k)
+        elif k == "ascii":
             c = r.choice("abc XYZ 09 .,;:-_/=()[]{}#%&*+<>?@^|~")
         else:
             lo, hi = PLANES[k]
@@ -125,12 +130,22 @@ def _run(ctx, base):
         res.seen("cases", h("api", text))
         try:
             d_s = eng.loads(text)
-            d_o = mappyfile.open(fn, expand_includes=False) if j % 4 == 0 else None
-            with open(fn, encoding="utf-8") as fp:
-                d_l = mappyfile.load(fp, expand_includes=False) if j % 4 == 1 else None
+            # the public front ends are called the way users call them (defaults: include expansion on)
+            d_o = mappyfile.open(fn) if j % 4 == 0 else None
+            with open(fn, encoding="utf-8", newline="") as fp:
+                d_l = mappyfile.load(fp) if j % 4 == 1 else None
+            d_p = mappyfile.loads(text) if j % 4 == 2 else None
         except Exception as ex:
             res.violation("front-end-raises", case, f"{type(ex).__name__}: {str(ex)[:200]}", None)
             continue
+        # ground truth: the generator's intended structure (all front ends could be wrong in the same way)
+        from .. import expect
+        want = expect.expect_doc(nodes)
+        for name, dd in (("loads(reused objects)", d_s), ("open", d_o), ("load", d_l), ("loads", d_p)):
+            if dd is not None:
+                diff = expect.compare(want, dd)
+                if diff:
+                    res.violation("front-end-result-differs-from-intended-content", dict(case, front_end=name), diff, None)
         ps = core.plain(d_s)
         for name, dd in (("open", d_o), ("load", d_l)):
             if dd is not None:
@@ -157,7 +172,7 @@ def _run(ctx, base):
             res.violation("save-does-not-return-its-path", case, ret, out_fn)
         # Unicode survives save -> open
         try:
-            d_back = mappyfile.open(out_fn, expand_includes=False) if j % 3 == 0 else eng.loads(s3)
+            d_back = mappyfile.open(out_fn) if j % 3 == 0 else eng.loads(s3)
             d_ref = eng.loads(s1)
             if core.plain(d_back) != core.plain(d_ref):
                 res.violation("save-open-cycle-changes-content", dict(case, options=opts), core.first_diff(core.plain(d_ref), core.plain(d_back)), None)
